@@ -34,7 +34,27 @@ class Case:
                 "ops": [sg["ops"] for sg in self.info["subgraphs"]]}
 
 
+def gen_fanout_case(rng, n_samples=1):
+    mb, info = gm.gen_fanout(rng)
+    data = gm.random_inputs(mb, rng, n=n_samples)
+    m = pl.read(mb)
+    sg = m.subgraphs[0]
+    cmds = []
+    cfgs = ["a8w8", "a8sw8t", "a16w8", "a8w4"]
+    rng.shuffle(cfgs)
+    j = 0
+    for op in sg.operators:
+        name = pl.tname(sg.tensors[op.outputs[0]])
+        if rng.random() < 0.85:
+            cmds.append({"k": "add", "regex": "^" + re.escape(name) + ";$", "operation": "*", "cfg": pl.UNIFORM[cfgs[j % len(cfgs)]],
+                         "alg": "min_max_uniform_quantize"})
+            j += 1
+    return Case(mb, info, cmds=cmds, data=data, desc=[(c["regex"], "*") for c in cmds])
+
+
 def gen_case(rng, i, multi_every=6, share_every=4, shipped_every=3, n_samples=1, **kw):
+    if i % 9 == 4:
+        return gen_fanout_case(rng, n_samples)
     mb, info = gm.gen_model(rng, n_subgraphs=1 if i % multi_every else rng.choice([2, 2, 3]), share=0.3 if i % share_every == 0 else 0, name_hazard=0.1, **kw)
     data = gm.random_inputs(mb, rng, n=n_samples)
     if i % shipped_every == 0:
@@ -198,7 +218,14 @@ def explore(ctx, drv, n, per_case, gen=gen_case, graph_corr=True, reserve_s=25, 
             if pipe_corr:
                 out = ("ok", res["out"]) if res["status"] == "ok" else ("raise", res.get("exc"))
                 fmat.cmp_pipeline(ctx, drv, case.mb, res["q"], res.get("cr"), out)
-        per_case(case, res)
+        try:
+            per_case(case, res)
+        except common.Timeout:
+            raise
+        except Exception as e:  # noqa: BLE001  an oracle that cannot even interpret the library's output
+            import traceback
+            ctx.fail(f"the property oracle could not interpret the library's output ({type(e).__name__}: {str(e)[:120]})",
+                     {**case.replay(), "traceback": traceback.format_exc()[-1200:]}, "oracle-crash:" + type(e).__name__)
 
 
 def failer(ctx, case, prefix=""):
